@@ -348,7 +348,8 @@ class Interp:
             T.HAZARDS[("CACHED", fi.key)] = (f"{fi.qualname} is decorated with {cdecos} and was inlined as if it were not: calls after the first with an equal key return the "
                                               f"remembered result (the key of a method is `self` by its __hash__/__eq__), which this analysis does not model")
         saved_env = st.env
-        st.env = dict(bound)
+        st.env = dict(getattr(fi, "closure", None) or {})       # (a nested function sees the variables of its definition site)
+        st.env.update(bound)
         nctx = Ctx(fi, fi.module, ctx.depth + 1, ctx.where_stack + (fi.qualname.split(".")[-1],))
         # defaults
         for name, dnode in fi.defaults().items():
@@ -1110,6 +1111,9 @@ class Interp:
         st.events.append(Event("store", f"{desc}.{attr}", (v,), (), ctx.loc(node), ctx.fi.key if ctx.fi else "", result=base, pc_len=len(st.pc)))
         if base[0] == "obj":
             st.heap[base[1]].fields[attr] = v
+            return
+        if base[0] == "class" and getattr(self, "_class_replay", None) is not None:
+            self._class_replay[(base[1].key, attr)] = v
             return
         # store on something we do not model: recorded as event only
 
@@ -2041,12 +2045,7 @@ class Interp:
     def _construct(self, ci: ClassInfo, args: List[Term], kwargs: Dict[str, Term], st: State, ctx: Ctx, node: ast.AST) -> List[Outcome]:
         where = ctx.loc(node)
         self.calls_resolved.append((where, ci.key))
-        for k_ in ci.mro():
-            for d_ in getattr(k_.node, "decorator_list", []):
-                nm_ = ast.unparse(d_.func if isinstance(d_, ast.Call) else d_).split(".")[-1]
-                if nm_ not in ("dataclass", "final", "total_ordering", "unique", "runtime_checkable"):
-                    # a class decorator may replace or wrap anything in the class (e.g. __post_init__): not followed
-                    raise AnalysisError(f"class {k_.name} is modified by the decorator @{ast.unparse(d_)[:60]}, which is not modelled (constructed at {where})")
+        overrides = self.class_overrides(ci, where)
         obj = st.alloc(HeapObj("obj", ci, {}, [], False, "", True))
         init = ci.find_method("__init__")
         if init is not None:
@@ -2081,6 +2080,17 @@ class Interp:
                 else:
                     st.heap[obj[1]].fields[f.name] = vals[f.name]
             post = ci.find_method("__post_init__")
+            if overrides:
+                # the __post_init__ the instance resolves to: the first class of the MRO that defines one or had its own replaced
+                mro_ = ci.mro()
+                for i_, k_ in enumerate(mro_):
+                    if k_.key in overrides:
+                        post = self.closure_function(overrides[k_.key])
+                        break
+                    if "__post_init__" in k_.methods:
+                        if any(b_.key in overrides for b_ in mro_[i_ + 1:]):
+                            raise AnalysisError(f"class {ci.name}: __post_init__ of {k_.name} sits above a base whose __post_init__ a decorator replaced (super() chain not followed)")
+                        break
             if post is not None:
                 outs = self._invoke(post, self.bind(post, initvars, {}, obj, where), st, ctx)
                 res = []
@@ -2095,6 +2105,106 @@ class Interp:
             # plain class without __init__ (e.g. exception subclasses)
             pass
         return [Outcome(st, "return", obj)]
+
+    def enum_member_attr(self, ci: ClassInfo, member: str, attr: str) -> Any:
+        """See Program._enum_attr_by_interpretation.  Returns a Python constant / EnumRef / tuple of those, or an
+        AnalysisError instance (remembered by the caller) when the construction is not followed."""
+        try:
+            assert ci.enum is not None
+            st = State()
+            ctx = Ctx(None, ci.module, 0)
+            raw = ci.enum.members[member]
+            args = [self.lift(x) for x in (raw if isinstance(raw, tuple) else (raw,))]
+            where = f"{ci.module.relpath}:{getattr(ci.node, 'lineno', 0)} {ci.name}.{member}"
+            new = ci.find_method("__new__")
+            init = ci.find_method("__init__")
+            if new is not None:
+                outs = self._invoke(new, self.bind(new, args, {}, ("class", ci), where), st, ctx)
+                outs = [o for o in outs if o.kind == "return"]
+                if len(outs) != 1 or outs[0].value[:1] != ("obj",):
+                    raise AnalysisError(f"__new__ of enum {ci.name} is not followed for member {member}")
+                st, obj = outs[0].state, outs[0].value
+            else:
+                obj = st.alloc(HeapObj("obj", ci, {}, [], False, "", True))
+            ho = st.heap[obj[1]]
+            whole = self.lift(raw)
+            ho.fields.setdefault("_value_", whole)
+            if new is None and init is not None and len(init.params) > 1:
+                outs = self._invoke(init, self.bind(init, args, {}, obj, where), st, ctx)
+                outs = [o for o in outs if o.kind == "return"]
+                if len(outs) != 1:
+                    raise AnalysisError(f"__init__ of enum {ci.name} is not followed for member {member}")
+                st = outs[0].state
+            ho = st.heap[obj[1]]
+            prop = ci.find_property(attr)
+            if prop is not None:
+                outs = self._invoke(prop, {prop.params[0]: obj}, st, ctx)
+                outs = [o for o in outs if o.kind == "return"]
+                if len(outs) != 1:
+                    raise AnalysisError(f"property {attr} of enum {ci.name} is not followed for member {member}")
+                v = outs[0].value
+            elif attr in ("value", "_value_"):
+                v = ho.fields["_value_"]
+            elif attr in ho.fields:
+                v = ho.fields[attr]
+            else:
+                raise AnalysisError(f"enum {ci.name} has no attribute {attr}")
+
+            def unlift(x: Any) -> Any:
+                if is_c(x):
+                    return x[1]
+                if isinstance(x, tuple) and x[:1] == ("enum",):
+                    return x[1]
+                if isinstance(x, tuple) and x[:1] == ("tuple",):
+                    return tuple(unlift(y) for y in x[1])
+                if T.is_seq(x) and all(a[0] == "L" for a in x[2]):
+                    t = "".join(a[1] for a in x[2])
+                    return t if x[1] == "s" else (t.encode() if x[1] == "b" else bytes.fromhex(t))
+                raise AnalysisError(f"{ci.name}.{member}.{attr} is not a constant: {T.show(x)[:80]}")
+            return unlift(v)
+        except AnalysisError as exc:
+            return exc
+        except (Unsupported, NeedSplit, Infeasible, KeyError, IndexError, AssertionError) as exc:
+            return AnalysisError(f"{ci.name}.{member}.{attr}: construction of the member is not followed ({type(exc).__name__})")
+
+    _PLAIN_CLASS_DECORATORS = ("dataclass", "final", "total_ordering", "unique", "runtime_checkable")
+
+    def class_overrides(self, ci: ClassInfo, where: str) -> Dict[str, Term]:
+        """What the class decorators of `ci` and of its bases that are repository functions do to those classes, found by
+        replaying them on the class object: a `cls.__post_init__ = <nested function>` store is remembered per class (it
+        is then what the constructor runs); a decorator that has any other effect, does not return the class, or is not
+        a repository function stops the analysis.  Result: class key -> the function that replaced its __post_init__."""
+        memo = self.__dict__.setdefault("_class_overrides_memo", {})
+        if ci.key in memo:
+            if isinstance(memo[ci.key], str):
+                raise AnalysisError(memo[ci.key])
+            return memo[ci.key]
+        out: Dict[str, Term] = {}
+        try:
+            for k_ in reversed(ci.mro()):
+                decos = [d_ for d_ in getattr(k_.node, "decorator_list", []) if ast.unparse(d_.func if isinstance(d_, ast.Call) else d_).split(".")[-1] not in self._PLAIN_CLASS_DECORATORS]
+                for d_ in reversed(decos):          # applied bottom-up
+                    sub = State()
+                    cctx = Ctx(None, k_.module, 0)
+                    self._class_replay = {}
+                    try:
+                        dv = self.eval(d_, sub, cctx)
+                        res = self.call(dv, [("class", k_)], {}, sub, cctx, d_)
+                    finally:
+                        rec, self._class_replay = self._class_replay, None
+                    if res != ("class", k_) or sub.pending or any(e.kind == "call" and not _benign_event(e, sub) for e in sub.events):
+                        raise AnalysisError(f"class {k_.name} is modified by the decorator @{ast.unparse(d_)[:60]} in a way that is not followed (constructed at {where})")
+                    for (ck, attr), v in rec.items():
+                        if ck != k_.key or attr != "__post_init__" or not (isinstance(v, tuple) and v[:1] == ("lambda",) and isinstance(v[1], ast.FunctionDef)):
+                            raise AnalysisError(f"class decorator @{ast.unparse(d_)[:60]} stores {attr} on {ck}: only a __post_init__ replaced by a nested function is followed")
+                        if k_.key in out:
+                            raise AnalysisError(f"class {k_.name}: __post_init__ is replaced by more than one decorator")
+                        out[k_.key] = v
+        except (AnalysisError, Unsupported, NeedSplit, Infeasible) as exc:
+            memo[ci.key] = str(exc) if isinstance(exc, AnalysisError) else f"class decorators of {ci.name} could not be followed ({type(exc).__name__})"
+            raise AnalysisError(memo[ci.key])
+        memo[ci.key] = out
+        return out
 
     # nested (pure) call of a repository function: join the callee's paths
     def call_user_nested(self, fv: Term, args: List[Term], kwargs: Dict[str, Term], st: State, ctx: Ctx, node: ast.AST) -> Term:
@@ -2643,7 +2753,9 @@ class Interp:
             info = self.prog.enum_of(ref)
             if attr == "name":
                 return c(ref.member)
-            if attr in info.attrs and not (isinstance(info.attrs[attr], tuple) and info.attrs[attr][0] == "opaque"):
+            if attr in info.attrs:
+                # (a plain copy of a constructor argument, or - through EnumInfo.resolver - what interpreting the
+                #  enum's constructor and property gives for this member)
                 return self.lift(info.attr(ref.member, attr))
             ci = self.prog.cls(ref.cls)
             m = ci.find_method(attr)
@@ -2703,7 +2815,7 @@ class Interp:
             if isinstance(typ, tuple) and typ and typ[0] == "enum":
                 ci = self.prog.cls(typ[1])
                 assert ci.enum is not None
-                if attr in ci.enum.attrs and not (isinstance(ci.enum.attrs[attr], tuple) and ci.enum.attrs[attr][0] == "opaque"):
+                if attr in ci.enum.attrs:
                     alts = tuple(ci.enum.attr(m, attr) for m in ci.enum.members)
                     return ("eattr", base, attr, alts)
                 if attr == "name":
@@ -2998,7 +3110,26 @@ class Interp:
                     return self.eval(body[-1].value, st, nctx)
                 finally:
                     st.env = saved
+        only_wraps = all(isinstance(d, ast.Call) and ast.unparse(d.func).split(".")[-1] == "wraps" for d in lam.decorator_list) if isinstance(lam, (ast.FunctionDef, ast.AsyncFunctionDef)) else False
+        if isinstance(lam, (ast.FunctionDef, ast.AsyncFunctionDef)) and only_wraps and not any(isinstance(n, (ast.Nonlocal, ast.Global)) for n in ast.walk(lam)):
+            return self.call_user_nested(("func", self.closure_function(fv)), args, {}, st, ctx, node)
         raise AnalysisError(f"nested def call at {ctx.loc(node)}")
+
+    def closure_function(self, fv: Term) -> FunctionInfo:
+        """A nested `def` as a function of its own: its body is analysed like any repository function, with the
+        variables of the definition site (as they were when the def was executed) visible as its free variables."""
+        lam = fv[1]
+        memo = self.__dict__.setdefault("_closure_fis", {})
+        k = (id(lam), id(fv[4]))
+        if k not in memo:
+            outer: Any = fv[3]
+            mod = outer.module if outer is not None else None
+            if mod is None:
+                raise AnalysisError("nested def outside a module")
+            fi2 = FunctionInfo(mod, f"{outer.qualname if outer is not None else ''}.<locals>.{lam.name}", lam, None, isinstance(lam, ast.AsyncFunctionDef))
+            fi2.closure = {kk: vv for kk, vv in fv[4].items()}  # type: ignore[attr-defined]
+            memo[k] = (fi2, fv[4])          # (keeps the env alive so the id stays unique)
+        return memo[k][0]
 
     def ev_Lambda(self, node: ast.Lambda, st: State, ctx: Ctx) -> Term:
         return ("lambda", node, None, ctx.fi, dict(st.env))
